@@ -340,6 +340,19 @@ ChunkEq ==
      /\ LET G == GridAll IN currY = G[gi + 1][1] /\ currE = G[gi + 1][2]
      /\ step = cfg.d
 
+(* ---- refinement of LoopGrid.tla (C12; its inductive invariant is proved by TLAPS for ALL T and dt) ----
+   under  t <- currT, k <- gi, T <- cfg.T, D <- cfg.d  every fixed-mode step of this machine is a step of
+   LoopGrid or leaves (t, k) unchanged; a Restart keeps (t, k); the second run of PairMode starts afresh.
+   (The constants of LoopGrid are state-dependent here, so the step relation is written out instead of
+   using INSTANCE.)                                                                                    *)
+GridRefinementInit == (Mode = "fixed" /\ gi = 0) => currT = 0
+GridRefinementAct ==
+  (Mode = "fixed" /\ Bug = "none") =>
+     \/ (currT' = currT /\ gi' = gi)
+     \/ (currT < T /\ currT' = Min(currT + cfg.d, T) /\ gi' = gi + 1)
+     \/ (PairMode /\ phase' # phase /\ currT' = 0 /\ gi' = 0)
+GridRefinement == [][GridRefinementAct]_vars
+
 (* ---- C14 ---- *)
 Contiguous(s) == \A i \in 1..Len(s) :
                     /\ s[i][1] < s[i][2]
